@@ -126,16 +126,20 @@ PROPS["C21"] = dict(
 
 # --------------------------------------------------------------------------- C22
 PROPS["C22"] = dict(
-    functions=["revm::Handler::{pop_handle_register, create_handle_generic, modify_spec_id} (crates/revm/src/handler.rs)"],
+    functions=["revm::Handler::{pop_handle_register, create_handle_generic, modify_spec_id} (crates/revm/src/handler.rs)",
+               "every function of the revm crate that calls Handler::{mainnet, mainnet_with_spec, optimism*, new} or EvmBuilder::handler (crate-wide MIR scan, incl. crates/revm/src/builder.rs)",
+               "revm::Handler::{mainnet, mainnet_with_spec}: uses of the reward flag"],
     bounds="every call to Handler::mainnet / mainnet_with_spec inside the three rebuild functions (all call sites found in the MIR of the function bodies); "
            "the reward argument is resolved through copies/moves (depth <= 6) to a literal, to `self.post_execution.reward_beneficiary.is_some()`, or to unknown",
-    outside="that PostExecutionHandler::reward_beneficiary with the handle absent leaves the context untouched and that every other effect of the transaction is "
-            "identical (whole-transaction differential); handle registers that themselves replace the reward handle; the explicit reset paths "
+    outside="that PostExecutionHandler::reward_beneficiary with the handle absent leaves the context untouched; `every other effect is identical` is decided only as "
+            "`the flag is read nowhere but where the reward handle is built` (Handler::mainnet / mainnet_with_spec), not as a whole-transaction differential; handle registers that themselves replace the reward handle; the explicit reset paths "
             "(EvmBuilder::reset_handler*, Handler::new) which by documentation restore the default; the optimism vault payments",
     assumptions=["Handler::mainnet::<SPEC>(flag) installs the reward handle iff flag (PostExecutionHandler::new, read in source)",
                  "registers re-applied after the rebuild do the same thing they did before it",
                  "z3 4.8.12 and cvc5 1.0 agree; candidates are replayed on the real Handler API by the native tool"],
-    jobs=[dict(name="e3::reward_flag_propagation", fn=jobs_e3.run_reward_flag)],
+    jobs=[dict(name="e3::reward_flag_propagation", fn=jobs_e3.run_reward_flag),
+          # crate-wide: every from-scratch Handler construction with a configured handler at hand carries its setting; the flag is read only where the reward handle is built
+          dict(name="e3::reward_flag_sites_and_uses", fn=__import__("jobs_c22").run_reward_sites)],
 )
 
 # --------------------------------------------------------------------------- C08
